@@ -38,6 +38,10 @@ var poolPaths = []string{
 	"$[$missing]", "$[0 to $missing]", "$ ? (@[$missing] == 1)", "$.a[$missing] == 1", "$[$[0].decimal(0)]", "$ ? (exists(@[$missing]))",
 	// suppressible errors raised inside subscript expressions
 	"$[$[0].double()]", "$[0, $.a]",
+	// subscripts below .** (in strict mode neither checked nor, therefore, to be trusted)
+	"$.**[1]", "$.**{1}[0 to 1]", "$.**[last]",
+	// non-suppressible errors in the left operand and in arithmetic operands
+	"$missing == $.a", "$missing + 1", "-$missing",
 	"$[*] ? (@.a.decimal(0) > 1)", "$.a.decimal(0)", "$.a.decimal(5,2000)", "$ ? (@.a == $missing || @.b == 1)",
 	// the document value as the right operand
 	"$i < $.a", "1 <= $.a", "$v == $.a", "$[*] ? ($i > @)", "$.a.b > $.a.a", "$.keyvalue() ? (@.value > 1)",
